@@ -455,7 +455,7 @@ where
 
     fn output_frames_max(&self) -> usize {
         // Set length to chunksize*ratio plus a safety margin of 10 elements.
-        (self.chunk_size as f64 * self.resample_ratio_original * self.max_relative_ratio + 10.0)
+        (self.chunk_size as f64 * (self.resample_ratio_original * self.max_relative_ratio) + 10.0)
             as usize
     }
 
